@@ -83,7 +83,9 @@ if [ "$SKIP" = "--suite-only" ] && [ -f "$SD/verify.json" ]; then
 elif [ $APPLY = 1 ]; then
   say "running ./check $PROP --tier quick against HEAD+patch"
   /verif/tools/mutant_run.sh "$SLOT" "$SD/patch.diff" "$PROP" --tier quick > /tmp/sv-check-$SLOT.log 2>&1; CHK=$?
-  grep -E "^(VIOLATION|KNOWN-FINDING|TOOL-ERROR|C[0-9]+:)" /tmp/sv-check-$SLOT.log | cut -c1-400 | head -12 >> "$LOG"
+  grep -E "^(VIOLATION|KNOWN-FINDING|TOOL-ERROR|C[0-9]+:|Traceback|[A-Za-z]*Error:)" /tmp/sv-check-$SLOT.log | cut -c1-400 | head -12 >> "$LOG"
+  # exit 1 only counts with a VIOLATION line (anything else is a broken run of the machinery)
+  if [ $CHK = 1 ] && ! grep -q "^VIOLATION property=$PROP " /tmp/sv-check-$SLOT.log; then say "exit 1 WITHOUT a VIOLATION line: treated as tool error"; CHK=2; fi
   say "check exit: $CHK"
 fi
 python3 - "$SD" "$HEAD_SHA" "$D0" "$APPLY" "$D1" "$SUITE" "$REGR" "$CHK" <<'PY'
